@@ -105,6 +105,7 @@ void OnlineAverage::reset()
 {
   std::lock_guard<std::mutex> lock(mutex_);
   data_.clear();
+  index_ = 0;
   sumOfData_ = 0;
   average_ = std::numeric_limits<double>::quiet_NaN();
 }
